@@ -396,6 +396,9 @@ def stack(arrays, axis=None, keys=None, align=False, **kwargs):
         kwargs['strict'] = True
         arrays = align_(arrays, **kwargs)
 
+    # match dimensions by name, never by position
+    arrays = [a if a.dims == arrays[0].dims or set(a.dims) != set(arrays[0].dims) else a.transpose(arrays[0].dims) for a in arrays]
+
     # make it a numpy array
     data = [a.values for a in arrays]
     data = np.array(data)
@@ -514,6 +517,9 @@ def concatenate(arrays, axis=0, _no_check=False, align=False, **kwargs):
     if type(axis) is not int:
         axis = arrays[0].dims.index(axis)
     dim = arrays[0].dims[axis]
+
+    # match dimensions by name, never by position
+    arrays = [a if a.dims == arrays[0].dims or set(a.dims) != set(arrays[0].dims) else a.transpose(arrays[0].dims) for a in arrays]
 
     # align secondary axes prior to concatenate
     # TODO: just encourage user to use align outside this function
